@@ -89,15 +89,12 @@ func ParseFork(s string) (Fork, bool) {
 }
 
 var (
-	two256   = new(big.Int).Lsh(big.NewInt(1), 256)
-	two255   = new(big.Int).Lsh(big.NewInt(1), 255)
-	maxWord  = new(big.Int).Sub(two256, big.NewInt(1))
-	two64    = new(big.Int).Lsh(big.NewInt(1), 64)
-	maxU64   = new(big.Int).Sub(two64, big.NewInt(1))
-	bigZero  = big.NewInt(0)
-	bigOne   = big.NewInt(1)
-	big32    = big.NewInt(32)
-	emptyKec = refmpt.Keccak(nil)
+	two256  = new(big.Int).Lsh(big.NewInt(1), 256)
+	two255  = new(big.Int).Lsh(big.NewInt(1), 255)
+	maxWord = new(big.Int).Sub(two256, big.NewInt(1))
+	bigZero = big.NewInt(0)
+	bigOne  = big.NewInt(1)
+	big32   = big.NewInt(32)
 )
 
 func bi(x uint64) *big.Int { return new(big.Int).SetUint64(x) }
